@@ -5,6 +5,9 @@ use crate::engine::{PResult, Run};
 use serde_json::Value;
 
 pub fn replay_dir(run: &mut Run, id: &str, check_case: fn(&str, &Value) -> Result<(), String>) -> PResult {
+    if run.cold.is_some() {
+        return Ok(());
+    }
     let dir = run.root.join("regress").join(id);
     let mut files: Vec<_> = match std::fs::read_dir(&dir) {
         Ok(rd) => rd.filter_map(|e| e.ok()).map(|e| e.path()).filter(|p| p.extension().map(|x| x == "json").unwrap_or(false)).collect(),
